@@ -1,11 +1,16 @@
 (* C11 — joining lays inputs contiguously along the axis; splitting is its inverse.
    PROVED: the split sizes (count, sum, equal for an exact split, otherwise differing by one with the larger first);
-   flat append chains the element lists; every joined array is well formed; the repository's hstack is sound with
-   respect to the specified hstack (= concatenation along axis 1 of the inputs promoted to rank 2) and is refuted on
-   inputs that differ only in the joined axis (open finding F11, pinned by the repository's own test).
+   SPLITTING an array of rank >= 2 with positive extents along any axis (C11_array_split / C11_split_even): the
+   blocks come out in order along the axis, block k has the input's shape with the k-th section size at the axis and
+   holds at coordinate c the input element at c with the axis entry shifted by the sizes of the earlier blocks —
+   nothing is lost, duplicated or reordered; an uneven `split` is refused; flat append chains the element lists;
+   every joined array is well formed; the repository's hstack is sound with respect to the specified hstack (=
+   concatenation along axis 1 of the inputs promoted to rank 2) and is refuted on inputs that differ only in the
+   joined axis (open finding F11, pinned by the repository's own test).
    NOT YET PROVED (exhaustively checked by the correspondence run incl. split-then-concatenate round trips on the
-   implementation): the block placement theorems for append/concatenate/stack/split along an inner axis. *)
-From ArrRs Require Import Index Axis Split Join Join_proofs.
+   implementation): the block placement theorem for append / concatenate / stack along an axis (the code goes through
+   unit slices, a flat re-assembly, a reshape with exchanged extents and a transpose). *)
+From ArrRs Require Import Index Axis Split Join Join_proofs Broadcast_proofs Axis_proofs Split_proofs.
 
 Theorem C11_split_sizes : forall n parts, 0 < parts ->
   length (section_sizes n parts) = parts /\
@@ -33,6 +38,37 @@ Theorem C11_hstack_refuted :
   exists arrs : list (arr Z), hstack_pinned 0%Z arrs = Err EConcat /\
     hstack_spec 0%Z arrs = Ok (mk [0;1;5;2;3;6]%Z [2;3]).
 Proof. exact hstack_pinned_refuted. Qed.
+
+(* what the blocks of a split are *)
+Theorem C11_pieces_def : forall (T : Type) (d : T) (a : arr T) ax start s t p ps,
+  pieces_ok d a ax start (s :: t) (p :: ps) <->
+  (wf p /\ shape p = upd (shape a) ax s /\
+   (forall c, in_range (shape p) c -> get d p c = get d a (upd c ax (start + nth ax c 0)))) /\
+  pieces_ok d a ax (start + s) t ps.
+Proof. reflexivity. Qed.
+
+Theorem C11_array_split : forall (T : Type) (d : T) (a : arr T) parts ax,
+  wf a -> pos_shape (shape a) -> 2 <= ndim a -> ax < ndim a -> (Z.of_nat (ndim a) < two64)%Z -> 0 < parts ->
+  exists ps, array_split d a parts (Some ax) = Ok ps /\
+    pieces_ok d a ax 0 (section_sizes (nth ax (shape a) 0) parts) ps.
+Proof. exact @array_split_spec. Qed.
+
+Theorem C11_split_even : forall (T : Type) (d : T) (a : arr T) parts ax,
+  wf a -> pos_shape (shape a) -> 2 <= ndim a -> ax < ndim a -> (Z.of_nat (ndim a) < two64)%Z -> 0 < parts ->
+  nth ax (shape a) 0 mod parts = 0 ->
+  exists ps, split_even d a parts (Some ax) = Ok ps /\
+    pieces_ok d a ax 0 (repeat (nth ax (shape a) 0 / parts) parts) ps.
+Proof. exact @split_even_spec. Qed.
+
+Theorem C11_split_uneven_refused : forall (T : Type) (d : T) (a : arr T) parts ax,
+  wf a -> pos_shape (shape a) -> ax < ndim a -> 0 < parts -> nth ax (shape a) 0 mod parts <> 0 ->
+  split_even d a parts (Some ax) = Err EParam.
+Proof. exact @split_even_refuses. Qed.
+
+Example C11_split_nonvacuous :
+  array_split 0%Z (mk (map Z.of_nat (seq 0 12)) [2;3;2]) 2 (Some 1) =
+    Ok [mk [0;1;2;3;6;7;8;9]%Z [2;2;2]; mk [4;5;10;11]%Z [2;1;2]].
+Proof. vm_compute. reflexivity. Qed.
 
 Example C11_nonvacuous :
   section_sizes 7 3 = [3;2;2] /\
